@@ -41,6 +41,10 @@ func (ex *Exec) spawnQuiet(fn *ssa.Function, args, bindings []Value) {
 
 // RunHarness explores all paths of one harness with the given number of workers.
 func (e *Engine) RunHarness(spec *HarnessSpec, workers int, deadline time.Time) *HarnessRun {
+	return e.runHarnessWith(spec, workers, deadline, nil)
+}
+
+func (e *Engine) runHarnessWith(spec *HarnessSpec, workers int, deadline time.Time, pinned Model) *HarnessRun {
 	h := &HarnessRun{Name: spec.Name, Fn: spec.Fn, IntMode: spec.IntMode, Ends: map[string]int{}, Unsupported: map[string]int{},
 		Covers: map[string]int{}, Stubs: map[string]bool{}, Funcs: map[string]bool{}, MaxPaths: spec.MaxPaths, Kind: spec.Kind}
 	h.cond = sync.NewCond(&h.mu)
@@ -75,6 +79,7 @@ func (e *Engine) RunHarness(spec *HarnessSpec, workers int, deadline time.Time) 
 			}
 			defer sol.Close()
 			ex := &Exec{eng: e, tt: tt, sol: sol, intMode: spec.IntMode, h: h, fnsHit: map[*ssa.Function]bool{}, stubsHit: map[string]bool{}}
+			ex.replayModel = pinned
 			for {
 				item, ok := h.popWork()
 				if !ok {
